@@ -61,7 +61,7 @@ def gen_cond(rng, fields, depth=0):
         return (rng.choice(["<", "<=", ">", ">=", "==", "!="]), left, gen_arith(rng, numeric)
                 if rng.random() < 0.4 else ("const", rng.choice([0, 1, 2, 3, 7, 2.5])))
     if k == "str":
-        return (rng.choice(["==", "!="]), ("field", rng.choice(strings)), ("sconst", rng.choice(["r", "g", "", "abc"])))
+        return (rng.choice(["==", "!="]), ("field", rng.choice(strings)), ("sconst", rng.choice(["r", "g", "", "abc", "a=b"])))
     return ("==", ("field", rng.choice(bools)), ("const", rng.choice([True, False])))
 
 
